@@ -1,4 +1,5 @@
 import EduceModel.Lemmas.CmpLemmas
+import EduceModel.Generated.Templates
 /-
   C03 — ordering is lexicographic over non-ignored fields in rank order.
   (C04, the cross-variant half of the same generated body, is in Props/C04.lean.)
@@ -376,5 +377,28 @@ example : (body exOrdType).bind (fun bd => Sem.evalCmp exOrdOps true exOrdType b
     = some none := by decide
 example : (body exOrdType).bind (fun bd => Sem.evalCmp exOrdOps true exOrdType bd ⟨2, [9, 3]⟩ ⟨2, [1, 4]⟩)
     = some (some .lt) := by decide
+
+
+/-! ## What the generated code calls
+
+The absolute paths (`::core::..`) named by the `quote!` templates of the handler, regenerated from /repo/src on every run
+(`vtool extract`): the functions, traits and types the generated code can reach are exactly these - a call of anything
+else (`::core::ptr::eq`, `::core::fmt::Display::fmt`, `::core::convert::From::from`, ...) is a change of what the
+implementation does and has to be looked at. -/
+
+theorem generated_calls_unchanged_ord :
+    Generated.paths_trait_handlers_ord =
+      ["::core::cmp::Eq", "::core::cmp::Ord", "::core::cmp::Ord::cmp", "::core::cmp::Ordering", "::core::cmp::Ordering::Equal", "::core::cmp::Ordering::Greater", "::core::cmp::Ordering::Less", "::core::cmp::PartialOrd", "::core::option::Option", "::core::option::Option::Some", "::core::primitive"] := by
+  decide +kernel
+
+theorem generated_calls_unchanged_partial_ord :
+    Generated.paths_trait_handlers_partial_ord =
+      ["::core::cmp::Ord", "::core::cmp::Ordering", "::core::cmp::Ordering::Equal", "::core::cmp::Ordering::Greater", "::core::cmp::Ordering::Less", "::core::cmp::PartialEq", "::core::cmp::PartialOrd", "::core::cmp::PartialOrd::partial_cmp", "::core::option::Option", "::core::option::Option::None", "::core::option::Option::Some", "::core::primitive"] := by
+  decide +kernel
+
+theorem generated_calls_unchanged_common_tools :
+    Generated.paths_common_tools =
+      ["::core::primitive"] := by
+  decide +kernel
 
 end Educe
